@@ -350,5 +350,19 @@ def run(prog, rep):
     rep.attempt(container_owners, prog, rep)
     rep.attempt(atomic_assign, prog, rep)
     rep.attempt(decoder_length, prog, cd, rep, pairs)
+    # the setters swap in a fresh list before they walk the assigned iterable: an iterable derived from the block itself
+    # (`b.tracks = (t for t in b if ..)`) still sees the previous tracks only because iter(block) binds the list at once -
+    # a generator-function __iter__ looks the list up at the first next(), i.e. after the swap
+    for modname, cname, pname in SETTERS:
+        c_ = prog.need_cls(cname, modname)
+        it_ = c_.get("__iter__")
+        if it_ is None:
+            continue
+        ys = [x for x in ast.walk(it_.node) if isinstance(x, (ast.Yield, ast.YieldFrom))]
+        if ys:
+            rep.fail("atomic-assign", c_.module.path.name, f"{cname}.__iter__", ys[0], f"{cname}.__iter__ is a generator function: it reads `self` when the first item is asked for, so an assignment "
+                     f"`block.{pname} = <something iterating the block lazily>` walks the fresh empty list and silently empties the block", construct=f"{cname}.__iter__ lazy")
+        else:
+            rep.ok("atomic-assign", f"{cname}.__iter__ binds the track list when iter() is called")
     rep.note("tracks getters return the internal list (block.tracks.append(x) bypasses the guard): outside the property's quantifier (add-track / assign-track-list calls)")
     rep.not_decided += ["in-place replacement of a track's own array after it was added", "mutation through the list returned by the getter"]
